@@ -161,6 +161,24 @@ def gen_opts(r):
     return o
 
 
+def tags_round(rep):
+    """--disable-translator takes group_element pairs in hexadecimal, with or without the 0x prefix"""
+    import pydicom
+    from dcmstack import dcmstack_cli
+    for text, want in [('0x29_0x1010', [(0x29, 0x1010)]), ('29_1010', [(0x29, 0x1010)]), ('0029_1010', [(0x29, 0x1010)]),
+                       ('0x29_0x1010,0x29_0x1020', [(0x29, 0x1010), (0x29, 0x1020)]), ('7fe1_00ff', [(0x7fe1, 0xff)]),
+                       ('0X0019_0X10aB', [(0x19, 0x10ab)])]:
+        rep.evaluations += 1
+        rep.count('cli/parse-tags')
+        try:
+            got = [(int(t.group), int(t.elem)) for t in dcmstack_cli.parse_tags(text)]
+        except Exception as e:
+            got = repr(e)
+        if got != want:
+            rep.failure('parse_tags(%r) = %s, the tags written are %s' % (text, got, [tuple(hex(x) for x in w) for w in want]),
+                        {'tag': 'cli:parse_tags', 'suite': 'cli', 'text': text})
+
+
 def dcmstack_round(rep, r, tier, tmp):
     n = 8 if tier == 'quick' else 120
     for ci in range(n):
@@ -325,6 +343,15 @@ def nitool_round(rep, r, tier, tmp):
         rep.count('cli/nitool')
         rep.nontriv(['nitool', case])
         C = {'suite': 'nitool', 'case': case}
+        # ---- dump without a destination prints the extension — in every invocation of the process, to the stdout of that moment
+        for rep_i in range(2):
+            rc, out = nitool(['dump', src])
+            rep.evaluations += 1
+            rep.count('cli/nitool-dump-stdout')
+            if rc != 0 or out.rstrip('\n') != ext_json:
+                rep.failure('nitool dump (no destination, invocation %d of the process) printed %r...' % (rep_i, out[:60]),
+                            dict(C, tag='nitool:dump-stdout'))
+                break
         # ---- dump then embed reproduces the extension
         dj = os.path.join(d, 'dump.json')
         rc, out = nitool(['dump', src, dj])
@@ -546,6 +573,7 @@ def main(pid, tier):
     NDEF[0], NDEF[1] = len(dcmstack.default_key_excl_res), len(dcmstack.default_key_incl_res)
     tmp = tempfile.mkdtemp(prefix='dcmverif_c19_')
     try:
+        tags_round(rep)
         dcmstack_round(rep, r, tier, tmp)
         names_round(rep, r, tier, tmp)
         nitool_round(rep, r, tier, tmp)
